@@ -19,6 +19,30 @@ using namespace cocls;
 
 static constexpr int NM = 2, NS = 4;
 
+// every operation of this driver is a handful of instructions; one that does not return within a second is
+// spinning inside the library (single thread: nobody else could make it progress): report and stop
+static std::atomic<long> g_heartbeat{0};
+static void start_watchdog() {
+    std::thread([] {
+        long seen = -1;
+        int idle = 0;
+        for (;;) {
+            std::this_thread::sleep_for(std::chrono::milliseconds(250));
+            long h = g_heartbeat.load();
+            if (h == seen && h >= 0) {
+                if (++idle >= 4) {
+                    std::fprintf(stderr, "Assertion `operation returns' failed: livelock inside an ownership operation\n");
+                    std::fflush(stderr);
+                    std::_Exit(3);
+                }
+            } else {
+                idle = 0;
+                seen = h;
+            }
+        }
+    }).detach();
+}
+
 struct Ctx;
 struct Waiter {
     Ctx *cx;
@@ -75,6 +99,7 @@ static bool okm(long m) { return m >= 0 && m < NM; }
 static bool oks(long j) { return j >= 0 && j < NS; }
 
 static void exec(Ctx &c, const std::vector<long> &op) {
+    g_heartbeat++;
     auto arity = [&](size_t n) { return op.size() == n; };
     if (op.empty()) { c.emit(-1); return; }
     switch (op[0]) {
@@ -150,7 +175,10 @@ static void run_case(const vh::Case &cs) {
     for (auto &op : cs.ops) exec(c, op);
     size_t rounds = c.waiters.size() + 1;
     for (size_t r = 0; r < rounds; r++)
-        for (int j = 0; j < NS; j++) c.slots[j]->release();
+        for (int j = 0; j < NS; j++) {
+            g_heartbeat++;
+            c.slots[j]->release();
+        }
     std::vector<long> fin{9};
     for (int m = 0; m < NM; m++) fin.push_back(c.mx[m]._requests.load() != nullptr);
     fin.push_back(c.pending());
@@ -166,12 +194,15 @@ static void run_case(const vh::Case &cs) {
 
 int main(int argc, char **argv) {
     if (argc < 2) return 2;
+    start_watchdog();
     for (auto &cs : vh::read_cases(argv[1])) {
         std::printf("CASE %s\n", cs.name.c_str());
         std::fflush(stdout);
         if (cs.engine == "mxo") run_case(cs);
         std::printf("END\n");
         std::fflush(stdout);
+        g_heartbeat++;
     }
+    g_heartbeat = -1000000;   // finished: static destruction may take its time
     return 0;
 }
